@@ -178,7 +178,7 @@ func init() {
 			x.want = w
 			return true
 		},
-		call: func(x *caseX) { x.rc.D.Scale(x.p.f, x.obj[0]); x.outM = x.rc.D }})
+		call: func(x *caseX) { x.rc.D.Scale(x.fS(), x.obj[0]); x.outM = x.rc.D }})
 	addOp(&opSpec{name: "Dense.Apply", recv: rDense, slots: m1, pats: unaryPats,
 		model: func(x *caseX) bool {
 			a := x.val[0]
